@@ -9,12 +9,13 @@ VARIABLE h
 gvars == <<vars, h>>
 GenInit == Init /\ h = <<>>
 (* a dispatch tick that releases nothing in the model is still an input for the code under test *)
-IdleTick == (\A a \in Alg : Release[a] = {}) /\ UNCHANGED vars /\ h' = Append(h, [ev |-> "Tick"])
+IdleTick == Cands = {} /\ UNCHANGED vars /\ h' = Append(h, [ev |-> "Tick"])
 GenNext ==
     \/ IdleTick
     \/ \E S \in RunChoices, T \in SUBSET Tg :
           Run(S, T) /\ h' = Append(h, [ev |-> "Run", S |-> S, T |-> T])
     \/ Tick /\ h' = Append(h, [ev |-> "Tick"])
+    \/ \E P \in SUBSET Alg : TickFaultP(P) /\ h' = Append(h, [ev |-> "TickFault", k |-> Cardinality(P)])
     \/ \E a \in Alg, t \in Tg, out \in Outcomes : \E new \in SUBSET prog.vals[a], old \in BOOLEAN :
           Reply(a, t, out, new, old) /\ h' = Append(h, [ev |-> "Reply", alg |-> a, t |-> t, out |-> out, new |-> new, old |-> old])
     \/ \E S \in SUBSET Alg : Reload(S) /\ h' = Append(h, [ev |-> "Reload", S |-> S])
@@ -25,6 +26,7 @@ GenNextFocus ==
     \/ \E a \in Alg, T \in {{"T1"}} \cup (IF "T2" \in Targets THEN {{"T1", "T2"}} ELSE {}) :
           Run({a}, T) /\ h' = Append(h, [ev |-> "Run", S |-> {a}, T |-> T])
     \/ Tick /\ h' = Append(h, [ev |-> "Tick"])
+    \/ \E P \in SUBSET Alg : TickFaultP(P) /\ h' = Append(h, [ev |-> "TickFault", k |-> Cardinality(P)])
     \/ \E a \in Alg, t \in Tg, out \in Outcomes : \E new \in SUBSET prog.vals[a], old \in BOOLEAN :
           Reply(a, t, out, new, old) /\ h' = Append(h, [ev |-> "Reply", alg |-> a, t |-> t, out |-> out, new |-> new, old |-> old])
     \/ \E S \in {{}, {A1}} : Reload(S) /\ h' = Append(h, [ev |-> "Reload", S |-> S])
